@@ -29,6 +29,7 @@ TECHNIQUE = "Lean 4 proof (kernel-checked tables re-extracted each run + soundne
 NOT_YET_PROVED = ["mxint_rne (mxint2bitstore = nearest-even of 64x with saturation for every float64 outside the two deviating inputs; proved on all 256 representable values, witness of the deviation proved; every half-precision input and float64 ties are covered by the correspondence only)",
                   "bfloat_reencode_fixpoint (bfloat decode-then-encode is the identity on all non-NaN codes: correspondence only - all 65 536 codes in the thorough tier)",
                   "scaled_pow2_exact (power-of-two scales shift the exponent exactly; covered by correspondence only)"]
+RULE = ("cases = corpus + known-finding witness + gen(): every code of every format (block and single lines), a sweep line per format/mode that runs all 65 536 half-precision inputs through the public API (one line = 65 536 evaluations checked by the oracle, one 256-block of it by the model), stratified half-precision inputs, float64 specials one per line with 11 creation routes, re-encode of every code, scaled dtypes; distinct = distinct case lines")
 TRUSTED = ["CPython struct.pack('>e'/'>f')/unpack and float64 arithmetic follow IEEE 754 round-to-nearest-even (modelled, not verified)"]
 
 NAMES = ["p3binary", "p4binary", "e5m2mxfp", "e4m3mxfp", "e3m2mxfp", "e2m3mxfp", "e2m1mxfp", "e8m0mxfp", "mxint", "bfloat", "bfloatle"]
